@@ -612,7 +612,10 @@ func NilCond(name string, pred func(ssa.Value) bool) CondMatcher {
 			return nil, false
 		}
 		if !pred(x) && !pred(Unwrap(x)) {
-			return nil, false
+			// the value on the current path (a named result or a local read back from its cell)
+			if rx := Rz(x); rx == x || (!pred(rx) && !pred(Unwrap(rx))) {
+				return nil, false
+			}
 		}
 		eq := b.Op == token.EQL
 		return func(v Val) bool { return (v[name] == 1) == eq }, true
